@@ -382,21 +382,22 @@ NOT_YET = {}
 PROPS["C09"] = dict(
     technique="Coq proofs on byte-faithful models: no-Panic for the key-exchange body parsers and the certificate-list indexing (every Go index / slice / nil dereference an explicit Panic result, oracles for gmsm), "
               "invariants by induction over arbitrary record / datagram sequences for state machines of the input side of tlcp/conn.go and dtlcp/conn.go whose state carries the buffer sizes "
-              "(for every handshake layer, record protection, replay verdict), progress measures; regression theorems (the code before each fix violates its bound on a recorded input) and a refutation theorem where the datagram stack still violates the property; "
+              "(for every handshake layer, record protection, replay verdict), progress measures; regression theorems (the code before each fix violates its bound on a recorded input); "
               "vm_compute correspondence through add-only hooks, scripted record traces and puppet-driven endpoint scenarios under watchdog + recover()",
     level_text="Theorems for every byte string, every answer of the cryptographic library, every handshake layer and every record / datagram sequence: the parsers never reach an out-of-range index; "
                "stream stack: c.hand <= 81923 bytes (65539 while waiting, 16384 after completion), rawInput <= one maximal record + one transport read, at most 16 consecutive non-advancing records, "
-               "every loop iteration consumes input; datagram stack (the library with fixes 1e7de38, 593205a, 6b259b8): retryCount / fragmentReads limits, at most 256 reassembly buffers at all times, each at most 65536 + 8192 bytes "
+               "every loop iteration consumes input; datagram stack (the library with fixes 1e7de38, 593205a, 6b259b8, bfc7028): retryCount / fragmentReads limits, at most 256 reassembly buffers at all times, each at most 65536 + 8192 bytes "
                "(hence at most 256 * 73728 bytes of pending reassembly memory), datagram buffer at most 18445 bytes, progress, datagrams from other addresses consumed by a loop that leaves the connection unchanged, "
-               "no handBuf growth after completion, handBuf at most 18432 bytes above its length at the entry of the running readRecordOrCCS frame and at most 65547 + (frames + 1) * 18432 bytes while a message is read; "
-               "the number of frames is unbounded (finding K15, refutation theorem), so the handBuf bound stays partial.  The parser models are evaluated in Coq on the bodies the Go parsers were called with (class of the result and what reached gmsm must agree), the machines on scripted "
+               "no handBuf growth after completion, handBuf at most 18432 bytes above its length at the entry of the running readRecordOrCCS call and at most 12 + 65536 - 1 + 18432 = 83979 bytes while the connection lives and a message is awaited, "
+               "for every datagram sequence; the record reader does not recurse (constant call depth).  The parser models are evaluated in Coq on the bodies the Go parsers were called with (class of the result and what reached gmsm must agree), the machines on scripted "
                "record sequences against real endpoints at five handshake states (buffer sizes after every step must agree), and the bound predicates on the maxima observed in puppet-driven scenarios "
                "(malformed message at every state, floods, garbage, foreign key types; both roles, both stacks).",
     level_note="Trusted: Coq kernel + vm_compute; hand-written models tied by correspondence; X.509 / ASN.1 parsing and gmsm are exercised, not modelled (oracle arguments of the theorems); "
                "bytes.Buffer capacity growth and the Go allocator are not modelled (the observed capacity of rawInput is checked against a fixed constant); the time-based cleanup of stale "
-               "reassembly buffers is not modelled (it only removes); K12, K13, K14 are repaired in the library (1e7de38, 593205a, 6b259b8): their bounds are theorems, the code before each fix is kept as a regression definition "
-               "and the harness keeps their scenarios, so a regression is an ordinary violation; K15 (a warning alert re-enters readRecordOrCCS from inside its loop: handBuf and the call stack grow without bound) is a genuine defect "
-               "left in the library: C09_d_handbuf_refuted states it, C09_d_handbuf_partial says what holds instead, its scenarios are reported as KNOWN-FINDING.",
+               "reassembly buffers is not modelled (it only removes); K12, K13, K14, K15 are repaired in the library (1e7de38, 593205a, 6b259b8, bfc7028): their bounds are theorems, the code before each fix is kept as a regression definition "
+               "and the harness keeps their scenarios, so a regression is an ordinary violation; the same now holds for K15 (a warning alert re-entered readRecordOrCCS from inside its loop: handBuf and the call stack grew without bound), "
+               "repaired in bfc7028: C09_d_handbuf is unconditional, C09_d_state says that the call depth of the record reader is constant, C09_d_K15_regression that the code before the fix exceeds every bound; "
+               "no finding of C09 is left open.",
     code_names={1: "panic", 2: "hang-or-spin", 3: "stream-handshake-buffer-above-bound", 4: "stream-raw-input-buffer-above-bound",
                 5: "handshake-bytes-buffered-after-completion", 6: "more-than-16-consecutive-non-advancing-records-tolerated",
                 7: "datagram-handshake-buffer-above-bound", 8: "more-reassembly-buffers-than-maxHandshakeFragments",
